@@ -54,6 +54,7 @@ type Ctx struct {
 	fa     map[*ssa.Function]*FnA
 	stats  map[string]int
 	extras map[string]interface{}
+	regFn  *ssa.Function
 }
 
 func goEnv() []string {
